@@ -92,6 +92,9 @@ Teleport(st) ==
 TransitionNames ==
   {"chain", "move_agent", "turn_agent", "pickndrop", "move_obstacles",
    "actuate_door", "actuate_box", "teleport"}
+\* examples/coin_env.py: the coin under the agent is collected (replaced by floor)
+CollectCoin(st) ==
+  IF Cell(st.grid, st.pos).t = "Coin" THEN [st EXCEPT !.grid = SetCell(@, st.pos, Floor)] ELSE st
 
 RECURSIVE ApplyT(_, _, _)
 RECURSIVE ApplySeq(_, _, _, _)
@@ -103,6 +106,7 @@ ApplyT(comp, st, a) ==
     [] comp.name = "actuate_box" -> {ActuateBox(st, a)}
     [] comp.name = "move_obstacles" -> MoveObstacles(st)
     [] comp.name = "teleport" -> Teleport(st)
+    [] comp.name = "collect_coin_transition" -> {CollectCoin(st)}
     [] comp.name = "chain" -> ApplySeq(comp.transition_functions, {st}, a, 1)
 ApplySeq(comps, S, a, k) ==
   IF k > Len(comps) THEN S
